@@ -626,7 +626,8 @@ class PostgreSQLQueryBuilder(QueryBuilder):
                 criterion = getattr(j, "criterion", None)
                 if criterion is not None:
                     join_tables |= criterion.tables_
-            join_and_base_tables = set(self._from) | join_tables
+            # the target of an UPDATE is not a FROM item; with a USING or CROSS join no criterion names it either
+            join_and_base_tables = set(self._from) | join_tables | {self._insert_table, self._update_table}
             table_not_base_or_join = bool(term.tables_ - join_and_base_tables)
             if not table_is_insert_or_update_table and table_not_base_or_join:
                 raise QueryException("You can't return from other tables")
